@@ -520,6 +520,16 @@ func callSSA(caller *frame, callpos token.Pos, fn *ssa.Function, args []value, e
 	fr := &frame{g: g, caller: caller, fn: fn}
 	name := fnKey(fn)
 	if fn.Parent() == nil {
+		if ft, ok := fallthroughs[name]; ok {
+			// a model that applies only in some mode (e.g. token-stream mode of the toki scanner)
+			old := g.top
+			g.top = fr
+			r := ft(fr, args)
+			g.top = old
+			if _, no := r.(fallThroughT); !no {
+				return r
+			}
+		}
 		if ext, ok := intrinsics[name]; ok {
 			E.StubsUsed[name] = true
 			if E.traceCalls {
